@@ -201,6 +201,20 @@ func Fixed() []*Grammar {
 			P("V", Al(none, "num"), Al(Call(A(1)), `"<"`, "V", `">"`), Al(Call(), `"~"`)),
 		}})
 
+	// multiline: action expressions that span several lines and carry string
+	// constants (raw strings with line breaks and leading blanks, quotes, `$`-free)
+	add(&Grammar{ID: "multiline", Seps: wsSeps,
+		Lex: append(letters(),
+			LexDef{Kind: LexToken, Name: "id", Pattern: `_letter {_letter}`, Samples: []string{"a", "bc", "xyz"}},
+			ws()),
+		Prods: []*Prod{
+			P("Doc", Al(Call(A(0), K("`end of\n  doc\n`", "end of\n  doc\n")), "Blocks")),
+			P("Blocks", Al(Call(A(0)), "Block"), Al(Call(K("`\n\t\tsep\n`", "\n\t\tsep\n"), A(0), A(1)), "Blocks", "Block")),
+			P("Block",
+				Al(Call(K("`begin %s\n  body\nend\n`", "begin %s\n  body\nend\n"), T(1)), `"begin"`, "id", `"end"`),
+				Al(Call(A(1), K("\"one line \\n \\t\"", "one line \n \t"), K("`x`", "x")), `"("`, "id", `")"`)),
+		}})
+
 	// keywords: literals that look like identifiers
 	add(&Grammar{ID: "keywords", Tight: true, Seps: wsSeps,
 		Lex: append(letters(),
